@@ -290,8 +290,9 @@ def always_exits(body: Sequence[ast.stmt]) -> bool:
 class PathAnalysis:
     """Analyse one function.  Subclass / pass hooks to canonicalise check-specific atoms."""
 
-    def __init__(self, prog: Program, fn: Func, term_hook=None, rounds: int = 4, elem_hook=None):
+    def __init__(self, prog: Program, fn: Func, term_hook=None, rounds: int = 4, elem_hook=None, max_worlds: int = MAX_WORLDS):
         self.prog, self.fn = prog, fn
+        self.max_worlds = max_worlds
         self.term_hook = term_hook       # (expr, world, analysis) -> Optional[str]
         self.elem_hook = elem_hook       # (expr, world, analysis) -> Optional[dict placeholder-tag -> set[Formula]]
         self.rounds = rounds
@@ -700,7 +701,7 @@ class PathAnalysis:
             uniq.setdefault((w.facts, tuple(sorted(w.ver.items())), tuple(sorted(w.extra.items())),
                              tuple(sorted(w.compdef.items())), tuple(sorted(w.alias.items()))), w)
         worlds = list(uniq.values())
-        if len(worlds) > MAX_WORLDS:
+        if len(worlds) > self.max_worlds:
             return [join_worlds(worlds, self.nid(node))]
         return worlds
 
@@ -815,6 +816,8 @@ class PathAnalysis:
     def _exec_try(self, s, worlds: List[World]) -> Flow:
         out = Flow()
         body = self.exec_block(s.body, [w.clone() for w in worlds])
+        for w in body.normal:
+            self.try_body_exit(s, w)
         assigned = assigned_names(s.body)
         handler_entries = []
         for w in worlds:
@@ -846,6 +849,9 @@ class PathAnalysis:
         else:
             out.normal = normal
         return out
+
+    def try_body_exit(self, s: ast.Try, w: World) -> None:
+        """Hook: facts established by leaving the body of a try normally (no exception was raised in it)."""
 
     # -------------------------------------------------------------- simple statements
     def _simple(self, s: ast.stmt, ws: List[World]) -> None:
